@@ -18,6 +18,10 @@ def BiCGSTAB_reset(Op,rhs,x0,eps=1e-6,nmax=40):
     # initial residual
     r = rhs - Op.matvec(x0)
     
+    # the initial guess already solves the system: nothing to iterate on (and no shadow residual with <r,r0p> != 0 exists)
+    if not tn.linalg.norm(r) > 0:
+        return x0, True, 0, tn.linalg.norm(r)
+    
     # choose rop
     r0p = tn.rand(r.shape,dtype = x0.dtype)
     while tn.dot(r.squeeze(),r0p.squeeze()) == 0:
@@ -34,7 +38,7 @@ def BiCGSTAB_reset(Op,rhs,x0,eps=1e-6,nmax=40):
         Ap = Op.matvec(p)
         alpha = tn.dot(r.squeeze(),r0p.squeeze()) / tn.dot(Ap.squeeze(),r0p.squeeze())
         s = r - alpha * Ap
-        if tn.linalg.norm(s)<eps*norm_rhs:
+        if tn.linalg.norm(s)<=eps*norm_rhs:
             x_n = x+alpha*p
             break
         
@@ -46,7 +50,7 @@ def BiCGSTAB_reset(Op,rhs,x0,eps=1e-6,nmax=40):
         r_nn = tn.linalg.norm(r_n)
         # print('\t\t\t',r_nn)
         # print(r_nn,eps,norm_rhs)
-        if r_nn < eps * norm_rhs:
+        if r_nn <= eps * norm_rhs:
         # if tf.linalg.norm(r_n)<eps:
             #print(r_n)
             break
